@@ -286,6 +286,14 @@ def s_case(sk, variant, fam="S"):
     return {"fam": fam, "desc": desc, "units": [{"funcs": [f], "entry": "f", "inputs": [({"a": v}, {}) for v in (0, 1, 2, 5)]}]}
 
 
+def s_pair_case(sk1, sk2):
+    """Two statement skeletons as two functions of ONE module, invoked alternately on one VM (engine: reused-VM pass)."""
+    c1, c2 = s_case(sk1, 0), s_case(sk2, 1)
+    g = dict(c2["units"][0]["funcs"][0], name="g")
+    u2 = {"funcs": [g], "entry": "g", "inputs": c2["units"][0]["inputs"]}
+    return {"fam": "S", "desc": "two-functions;" + c1["desc"] + ";" + c2["desc"], "units": [c1["units"][0], u2]}
+
+
 def _has(sk, kinds):
     if sk[0] in kinds:
         return 1 + sum(_has(k, kinds) for k in sk[1:] if isinstance(k, tuple))
@@ -305,6 +313,12 @@ def fam_S(tier):
                 variants = (0, 1, 2) if n <= 4 else (n % 3,)
             for variant in variants:
                 yield (s_case, sk, variant)
+    # every ordered pair of the small skeletons with control flow as two functions of one module
+    small = [sk for n in (2, 3) for sk in stmt_skeletons(n, False) if _has(sk, ("for", "while", "do", "if", "ifelse"))]
+    for i, a in enumerate(small):
+        for j, b in enumerate(small):
+            if i != j and (i + j) % (4 if tier == "thorough" else 16) == 0:
+                yield (s_pair_case, a, b)
 
 
 # =============================================================================================
@@ -2075,6 +2089,15 @@ def v_misc_units(tier):
         for nm_, e_ in (("v*s/t", B("/", B("*", V("v"), V("s")), V("t"))), ("v/s*t", B("*", B("/", V("v"), V("s")), V("t"))), ("v*s*t", B("*", B("*", V("v"), V("s")), V("t"))),
                         ("s*v/t", B("/", B("*", V("s"), V("v")), V("t"))), ("v/s/t", B("/", B("/", V("v"), V("s")), V("t")))):
             add([(IV, "v"), ("int", "s"), ("int", "t")], IV, e_, [({"v": vals, "s": 3, "t": 2}, {}), ({"v": [-x for x in vals], "s": 3, "t": 2}, {})], f"int-vector-scaling-chain;{nm_}")
+    # an element store followed by a swizzle of the same vector, and the other way round
+    F4_ = VT("float", 4)
+    for nm_, body_ in (("index-write-then-swizzle-read", [ASG(IDX(V("v"), 1), lit(55.0)), ("ret", CTOR(F4_, ("swz", V("v"), "yx"), ("swz", V("v"), "wz")))]),
+                       ("index-write-then-swizzle-write", [ASG(IDX(V("v"), 1), lit(55.0)), ASG(("swz", V("v"), "zx"), ("swz", V("v"), "xy")), ("ret", V("v"))]),
+                       ("dyn-index-write-then-swizzle-read", [ASG(IDX(V("v"), V("i")), lit(55.0)), ("ret", CTOR(F4_, ("swz", V("v"), "wzy"), IDX(V("v"), 0)))]),
+                       ("swizzle-write-then-index-write-then-swizzle-read", [ASG(("swz", V("v"), "xw"), CTOR(VT("float", 2), lit(7.0), lit(8.0))), ASG(IDX(V("v"), 2), lit(9.0)), ("ret", ("swz", V("v"), "wzyx"))]),
+                       ("two-index-writes-then-swizzle", [ASG(IDX(V("v"), 0), lit(5.0)), ASG(IDX(V("v"), 3), IDX(V("v"), 0)), ("ret", ("swz", V("v"), "wxyz"))])):
+        name = f"f{len(units)}"
+        units.append({"funcs": [func(name, [(F4_, "v"), ("int", "i")], F4_, body_)], "entry": name, "inputs": [({"v": [1.0, 2.0, 3.0, 4.0], "i": i_}, {}) for i_ in (0, 2)], "desc": f"store-then-swizzle;{nm_}"})
     # both operands the same variable
     for n in (2, 3, 4):
         T = VT("float", n)
@@ -3074,6 +3097,12 @@ DF_SOURCES = [
     ("overloads-with-different-parameter-counts", "function pick(int a, int b) -> int { return a * 10 + b; }\nfunction pick(int b) -> int { return b + 1; }\nexport function f(int a) -> int { return pick(a, 2) * 100 + pick(a); }\n", {"a": 3}, {}),
     ("overloads-with-swapped-parameter-names", "function mixn(int a, float b) -> float { return a + b * 2.0; }\nfunction mixn(float b, int a) -> float { return b * 3.0 + a; }\nexport function f(int a) -> float { return mixn(a, 0.5) + mixn(0.5, a); }\n", {"a": 3}, {}),
     ("overload-declared-between-callers", "function w(int p) -> int { return p + 1; }\nfunction c1(int a) -> int { return w(a); }\nfunction w(float q, int r) -> int { return r * 2; }\nexport function f(int a) -> int { return c1(a) * 10 + w(0.5, a); }\n", {"a": 3}, {}),
+    ("folded-casts-in-two-blocks", "export function f(int a, float x) -> float { float r = x * 2; if (a > 0) { r = r + 3; } return r; }\n", {"a": 1, "x": 5.0}, {}),
+    ("folded-casts-in-three-blocks", "export function f(int a, float x) -> float { float r = x * 2; if (a > 0) { r = r + 3; } else { r = r - 5; } r = r * 7; return r; }\n", {"a": 1, "x": 5.0}, {}),
+    ("folded-casts-in-loop-and-after", "export function f(int a, float x) -> float { float r = x + 1; for (int i = 0; i < 3; ++i) { r = r * 2 + 4; } return r / 8; }\n", {"a": 1, "x": 5.0}, {}),
+    ("folded-casts-to-int-in-two-blocks", "export function f(int a, float x) -> int { int r = a + int(2.0); if (x > 1.0) { r = r * int(3.0); } return r - int(1.0); }\n", {"a": 4, "x": 5.0}, {}),
+    ("folded-casts-same-value-in-two-blocks", "export function f(int a, float x) -> float { float r = x * 2; if (a > 0) { r = r + 2; } return r - 2; }\n", {"a": 1, "x": 5.0}, {}),
+    ("loop-carried-local-stored-then-read", "export function f(int a) -> int { int total = 0; int prev = 1; for (int i = 0; i < a; ++i) { total = total + prev; prev = i + 1; total = prev + total; } return total; }\n", {"a": 3}, {}),
     ("import-of-nothing", "import \"does_not_exist\";\nexport function f(int a) -> int { return a; }\n", {"a": 3}, {}),
     ("only-declarations", "int g;\nstruct A { int x; }\n", None, {}),
     ("only-a-struct", "struct A { int x; }\n", None, {}),
